@@ -14,7 +14,8 @@ extra = sys.argv[2:]          # further check ids to run against the change
 src = '/tmp/seed/' + ID
 dst = '/verif/seeded/' + ID
 os.makedirs(dst, exist_ok=True)
-meta = dict(property=ID, at=time.strftime('%Y-%m-%d %H:%M:%S'))
+PROP = ID[:3]          # second-round seeds are named C05r2, ...
+meta = dict(property=PROP, at=time.strftime('%Y-%m-%d %H:%M:%S'))
 
 
 def sh(cmd, cwd=None, timeout=3000):
@@ -42,20 +43,26 @@ ok = rc1 != 0 and rc0 == 0 and any('100 passed' in l for l in meta['repo_tests_w
 meta['confirmed'] = ok
 print(ID, 'tests:', meta['repo_tests_with_change'], 'demo changed rc=%d unchanged rc=%d' % (rc1, rc0), 'CONFIRMED' if ok else 'NOT CONFIRMED')
 results = {}
+# the checks run against a scratch copy of /repo's package with the change applied (EAO_REPO), so that /repo itself -- which
+# other runs may be using at the same time -- is never touched; scratch runs write their evidence under out/, not evidence/
+import tempfile
+D = tempfile.mkdtemp(prefix='eaoseed_')
 try:
-    rc, out = sh('git -C /repo apply %s/patch.diff' % dst)
+    shutil.copytree('/repo/eaopack', D + '/eaopack')
+    shutil.copytree('/repo/tests', D + '/tests')
+    rc, out = sh('patch -p1 -s < %s/patch.diff' % dst, cwd=D)
     assert rc == 0, out
-    for cid in [ID] + extra:
+    for cid in [PROP] + extra:
         for tier in ['quick']:
             t0 = time.time()
-            rc, out = sh('/venv/bin/python -m checks.run %s --tier %s' % (cid, tier), cwd='/verif')
+            p = subprocess.run('/venv/bin/python -m checks.run %s --tier %s' % (cid, tier), shell=True, cwd='/verif', capture_output=True, text=True,
+                               env=dict(os.environ, EAO_REPO=D))
+            rc, out = p.returncode, p.stdout + p.stderr
             vio = [l[:400] for l in out.splitlines() if l.startswith('VIOLATION')]
             results['%s_%s' % (cid, tier)] = dict(rc=rc, violations=len(vio), first=vio[:2], last=out.strip().splitlines()[-1][:200] if out.strip() else '', wall=round(time.time() - t0))
             print('  check', cid, tier, 'rc=%d' % rc, 'violation lines=%d' % len(vio), (vio[0][:300] if vio else ''))
 finally:
-    rc, out = sh('git -C /repo checkout -- .')
-    rc, out = sh('git -C /repo status --short')
-    assert out.strip() == '', 'repo not clean: ' + out
+    shutil.rmtree(D, ignore_errors=True)
 meta['checks'] = results
 meta['detected_by'] = sorted({k.split('_')[0] for k, v in results.items() if v['rc'] == 1})
 json.dump(meta, open(dst + '/meta.json', 'w'), indent=1)
